@@ -6,6 +6,14 @@ namespace D
 @[simp] theorem pure_eq (a : α) : (Pure.pure a : D α) = D.pure a := rfl
 @[simp] theorem bind_eq (p : D α) (f : α → D β) : (p >>= f) = D.bind p f := rfl
 
+theorem short_eq (n : Nat) (bs : Bytes) : short n bs = decide (bs.length < n) := by
+  induction n generalizing bs with
+  | zero => simp [short]
+  | succ n ih =>
+    cases bs with
+    | nil => simp [short]
+    | cons b bs => simp [short, ih]
+
 theorem run_bind (p : D α) (f : α → D β) (bs : Bytes) :
     (p.bind f).run bs = match p.run bs with
       | none => none
@@ -13,9 +21,9 @@ theorem run_bind (p : D α) (f : α → D β) (bs : Bytes) :
   induction p generalizing bs with
   | pure a => simp [bind, run]
   | fail => simp [bind, run]
-  | take n k ih => simp only [bind, run]; split <;> simp [ih]
-  | skip n k ih => simp only [bind, run]; split <;> simp [ih]
-  | str n k ih => simp only [bind, run]; split <;> simp [ih]
+  | take n k ih => simp only [bind, run, short_eq, decide_eq_true_eq]; split <;> simp [ih]
+  | skip n k ih => simp only [bind, run, short_eq, decide_eq_true_eq]; split <;> simp [ih]
+  | str n k ih => simp only [bind, run, short_eq, decide_eq_true_eq]; split <;> simp [ih]
 
 /-- the instrumented interpreter computes the same value and rest as the plain one -/
 theorem run_eq_runM (p : D α) (bs : Bytes) :
@@ -24,15 +32,15 @@ theorem run_eq_runM (p : D α) (bs : Bytes) :
   | pure a => simp [run, runM]
   | fail => simp [run, runM]
   | take n k ih =>
-    simp only [run, runM]; split
+    simp only [run, runM, short_eq, decide_eq_true_eq]; split
     · simp
     · rw [ih]; cases (k (List.take n bs)).runM (List.drop n bs) <;> simp
   | skip n k ih =>
-    simp only [run, runM]; split
+    simp only [run, runM, short_eq, decide_eq_true_eq]; split
     · simp
     · rw [ih]; cases k.runM (List.drop n bs) <;> simp
   | str n k ih =>
-    simp only [run, runM]; split
+    simp only [run, runM, short_eq, decide_eq_true_eq]; split
     · simp
     · rw [ih]; cases (k (cutNul (List.take n bs))).runM (List.drop n bs) <;> simp
 
@@ -48,7 +56,7 @@ theorem runM_prefix (p : D α) (bs : Bytes) (a : α) (m : List Bool) (r : Bytes)
   | pure a' => simp [runM] at h; obtain ⟨_, rfl, rfl⟩ := h; exact ⟨[], by simp⟩
   | fail => simp [runM] at h
   | take n k ih =>
-    simp only [runM] at h
+    simp only [runM, short_eq, decide_eq_true_eq] at h
     split at h
     · simp at h
     · rename_i hn
@@ -61,7 +69,7 @@ theorem runM_prefix (p : D α) (bs : Bytes) (a : α) (m : List Bool) (r : Bytes)
         · rw [List.append_assoc, ← hc, List.take_append_drop]
         · simp [hl] <;> omega
   | skip n k ih =>
-    simp only [runM] at h
+    simp only [runM, short_eq, decide_eq_true_eq] at h
     split at h
     · simp at h
     · rename_i hn
@@ -74,7 +82,7 @@ theorem runM_prefix (p : D α) (bs : Bytes) (a : α) (m : List Bool) (r : Bytes)
         · rw [List.append_assoc, ← hc, List.take_append_drop]
         · simp [hl] <;> omega
   | str n k ih =>
-    simp only [runM] at h
+    simp only [runM, short_eq, decide_eq_true_eq] at h
     split at h
     · simp at h
     · rename_i hn
@@ -155,7 +163,7 @@ theorem ni (p : D α) (c r : Bytes) (a : α) (m : List Bool)
     simp at hc hc'; subst hc; subst hc'; simp [runM]
   | fail => simp [runM] at h
   | take n k ih =>
-    simp only [runM] at h
+    simp only [runM, short_eq, decide_eq_true_eq] at h
     split at h
     · simp at h
     · rename_i hn
@@ -179,10 +187,10 @@ theorem ni (p : D α) (c r : Bytes) (a : α) (m : List Bool)
         have hD' : (c' ++ r').drop n = c'.drop n ++ r' := by rw [List.drop_append_of_le_length hnc']
         rw [hT, hD] at heq
         have := ih _ (c.drop n) _ heq (by simp; omega) (c'.drop n) (by simp; omega) hB
-        simp only [runM]
+        simp only [runM, short_eq, decide_eq_true_eq]
         rw [if_neg (by simp; omega), hT', hD', htake, this]
   | skip n k ih =>
-    simp only [runM] at h
+    simp only [runM, short_eq, decide_eq_true_eq] at h
     split at h
     · simp at h
     · rename_i hn
@@ -202,10 +210,10 @@ theorem ni (p : D α) (c r : Bytes) (a : α) (m : List Bool)
         have hD' : (c' ++ r').drop n = c'.drop n ++ r' := by rw [List.drop_append_of_le_length hnc']
         rw [hD] at heq
         have := ih (c.drop n) _ heq (by simp; omega) (c'.drop n) (by simp; omega) hB
-        simp only [runM]
+        simp only [runM, short_eq, decide_eq_true_eq]
         rw [if_neg (by simp; omega), hD', this]
   | str n k ih =>
-    simp only [runM] at h
+    simp only [runM, short_eq, decide_eq_true_eq] at h
     split at h
     · simp at h
     · rename_i hn
@@ -230,7 +238,7 @@ theorem ni (p : D α) (c r : Bytes) (a : α) (m : List Bool)
         have hcut := cutNul_of_agree (c.take n) (c'.take n) (by simp; omega) hA
         rw [hT, hD] at heq
         have := ih _ (c.drop n) _ heq (by simp at hc ⊢; omega) (c'.drop n) (by simp at hc' ⊢; omega) hB
-        simp only [runM]
+        simp only [runM, short_eq, decide_eq_true_eq]
         rw [if_neg (by simp; omega), hT', hD', hcut.1, hcut.2, this, hT]
 
 end D
@@ -244,7 +252,7 @@ theorem run_pure (a : α) (bs : Bytes) : (D.pure a).run bs = some (a, bs) := rfl
 
 theorem take_run (n : Nat) (k : Bytes → D α) (b rest : Bytes) (h : b.length = n) :
     (D.take n k).run (b ++ rest) = (k b).run rest := by
-  simp only [run]
+  simp only [run, short_eq, decide_eq_true_eq]
   rw [if_neg (by simp; omega), List.take_append_of_le_length (by omega),
       List.drop_append_of_le_length (by omega), List.take_of_length_le (by omega),
       List.drop_eq_nil_of_le (by omega)]
@@ -252,7 +260,7 @@ theorem take_run (n : Nat) (k : Bytes → D α) (b rest : Bytes) (h : b.length =
 
 theorem skip_run (n : Nat) (k : D α) (b rest : Bytes) (h : b.length = n) :
     (D.skip n k).run (b ++ rest) = k.run rest := by
-  simp only [run]
+  simp only [run, short_eq, decide_eq_true_eq]
   rw [if_neg (by simp; omega), List.drop_append_of_le_length (by omega),
       List.drop_eq_nil_of_le (by omega)]
   simp
@@ -300,28 +308,36 @@ theorem bind_run_of (p : D α) (f : α → D β) (bs r : Bytes) (x : α)
     (h : p.run bs = some (x, r)) : (p.bind f).run bs = (f x).run r := by
   rw [run_bind, h]
 
+theorem repK_run (p : D α) (e : α → Bytes) (xs : List α) (k : List α → D β) (rest : Bytes)
+    (hp : ∀ x ∈ xs, ∀ r, p.run (e x ++ r) = some (x, r)) :
+    (D.repK xs.length p k).run (xs.flatMap e ++ rest) = (k xs).run rest := by
+  induction xs generalizing k rest with
+  | nil => simp [repK]
+  | cons x xs ih =>
+    simp only [List.length_cons, repK, List.flatMap_cons, List.append_assoc]
+    rw [bind_run_of _ _ _ _ x (hp x (by simp) _)]
+    exact ih _ _ (fun y hy r => hp y (by simp [hy]) r)
+
 theorem rep_run (p : D α) (e : α → Bytes) (xs : List α) (rest : Bytes)
     (hp : ∀ x ∈ xs, ∀ r, p.run (e x ++ r) = some (x, r)) :
     (D.rep xs.length p).run (xs.flatMap e ++ rest) = some (xs, rest) := by
-  induction xs generalizing rest with
-  | nil => simp [rep, run]
+  unfold rep; rw [repK_run p e xs _ rest hp]; rfl
+
+theorem forK_run (f : γ → D α) (e : α → Bytes) (arg : α → γ) (xs : List α) (k : List α → D β)
+    (rest : Bytes) (hp : ∀ x ∈ xs, ∀ r, (f (arg x)).run (e x ++ r) = some (x, r)) :
+    (D.forK (xs.map arg) f k).run (xs.flatMap e ++ rest) = (k xs).run rest := by
+  induction xs generalizing k rest with
+  | nil => simp [forK]
   | cons x xs ih =>
-    simp only [List.length_cons, rep, bind_eq, List.flatMap_cons, List.append_assoc]
+    simp only [List.map_cons, forK, List.flatMap_cons, List.append_assoc]
     rw [bind_run_of _ _ _ _ x (hp x (by simp) _)]
-    rw [bind_run_of _ _ _ _ xs (ih _ (fun y hy r => hp y (by simp [hy]) r))]
-    rfl
+    exact ih _ _ (fun y hy r => hp y (by simp [hy]) r)
 
 /-- a loop whose body depends on an argument taken from a list (`for seg in segments: read …`) -/
 theorem forM'_run (f : γ → D α) (e : α → Bytes) (arg : α → γ) (xs : List α) (rest : Bytes)
     (hp : ∀ x ∈ xs, ∀ r, (f (arg x)).run (e x ++ r) = some (x, r)) :
     (D.forM' (xs.map arg) f).run (xs.flatMap e ++ rest) = some (xs, rest) := by
-  induction xs generalizing rest with
-  | nil => simp [forM', run]
-  | cons x xs ih =>
-    simp only [List.map_cons, forM', bind_eq, List.flatMap_cons, List.append_assoc]
-    rw [bind_run_of _ _ _ _ x (hp x (by simp) _)]
-    rw [bind_run_of _ _ _ _ xs (ih _ (fun y hy r => hp y (by simp [hy]) r))]
-    rfl
+  unfold forM'; rw [forK_run f e arg xs _ rest hp]; rfl
 
 end D
 end Tdf
